@@ -13,11 +13,13 @@ Definition hevc_unit_type (n : list N) : N := (hevc_hdr16 n / 512) mod 64.
 
 (* an HEVC NAL unit as the sample walkers need it: both header bytes present, bytes are bytes, the length
    fits the 4-byte length field.  (The default 0 of hevc_hdr16 on shorter lists is never used under it.) *)
-Definition hevc_unit (n : list N) : bool := (2 <=? length n)%nat && bytes_ok n && fits32 n.
+Definition hevc_hdr_ok (n : list N) : bool := (2 <=? length n)%nat && bytes_ok n.
+Definition hevc_unit (n : list N) : bool := hevc_hdr_ok n && fits32 n.
 Definition hevc_units (ns : list (list N)) : bool := forallb hevc_unit ns.
-(* ... and as the byte-stream helpers need it: additionally emulation-free with a non-zero last byte *)
+(* ... and as the byte-stream helpers need it: both header bytes, emulation-free with a non-zero last byte
+   (wf_nalu), behind a 3- or 4-byte start code *)
 Definition hevc_stream_units (us : list (bool * list N)) : bool :=
-  forallb (fun u => (2 <=? length (snd u))%nat && wf_nalu (snd u)) us.
+  forallb (fun u => hevc_hdr_ok (snd u) && wf_nalu (snd u)) us.
 
 (* HEVC type classes (Table 7-1): VCL types are 0..31, IRAP 16..23, IDR 19..20, VPS/SPS/PPS 32/33/34 *)
 Definition hevc_vcl (t : N) : bool := (t <=? 31)%N.
